@@ -1357,12 +1357,17 @@ def d2_level(tier, st):
     import compiles
     from ethosu import mlw_codec
     n = 64 if tier == "quick" else 1600
-    jobs = c08_corpus_jobs() + compiles.corpus_jobs() + compiles.plan(FAMS, n, vlib.seed(), tag="d2", capture=True)
+    # weight-sharing (siamese) networks beyond the few of the shared plan: the cache-reuse clause needs operators that share constants
+    rngs = random.Random("c08/siamese/%s" % vlib.seed())
+    siamese = [{"family": "siamese", "seed": "c08s-%s-%d" % (vlib.seed(), i), "args": compiles.config_args(rngs), "capture": True}
+               for i in range(12 if tier == "quick" else 300)]
+    jobs = c08_corpus_jobs() + compiles.corpus_jobs() + siamese + compiles.plan(FAMS, n, vlib.seed(), tag="d2", capture=True)
     results = compiles.run_all(jobs, timeout=900)
     cw_args, cw_meta, dma_args, dma_meta = [], [], [], []
     d2 = dict(compilations=0, conv_like_ops=0, weight_dmas=0, scale_records=0, weight_sections_decoded=0, buffered_ops=0, two_core_ops=0,
               separate_scale_tensor_ops=0, single_weight_buffers=0, single_weight_buffers_multi_slice=0, single_buffer_size_is_model=0,
-              double_weight_buffers=0, double_buffer_sizes_are_model=0)
+              double_weight_buffers=0, double_buffer_sizes_are_model=0, siamese_compilations=0, encode_calls=0, encode_calls_from_cache=0,
+              cache_answers_compared_with_fresh=0, cache_answers_with_separate_scale_tensor=0, encode_calls_capture_errors=0)
     bad = None
     buf_rows = []
     for r in results:
@@ -1372,6 +1377,33 @@ def d2_level(tier, st):
         if not art or not art["capture"]:
             continue
         d2["compilations"] += 1
+        d2["siamese_compilations"] += r["job"].get("family") == "siamese" or "siamese" in str(r["job"].get("tflite"))
+        # the cache-reuse clause on this compilation: every encode_weight_and_scale_tensor call that was answered from the cache
+        # (observed by tools/wrap.py) against a fresh encoding of the same call from an emptied cache, per (core, depth) range
+        for wi, rec in enumerate(art["capture"].get("weights", [])):
+            if "error" in rec and "op" not in rec:
+                d2["encode_calls_capture_errors"] += 1
+                continue
+            st["evals"] += 1
+            d2["encode_calls"] += 1
+            d2["encode_calls_from_cache"] += bool(rec.get("hit"))
+            if not rec.get("compared"):
+                continue
+            d2["cache_answers_compared_with_fresh"] += 1
+            d2["cache_answers_with_separate_scale_tensor"] += bool(rec.get("scale_tensor_returned"))
+            part = ("fresh_raises" if rec.get("fresh_error") else "ranges" if not rec.get("keys_equal") else
+                    "weights" if not rec.get("weights_equal") else "scales" if not rec.get("scales_equal") else None)
+            st["nontrivial"].add(("d2cache", rec.get("op_type"), rec.get("ncores"), bool(rec.get("scale_tensor_returned")), len(rec.get("depth_offsets", []))))
+            if part:
+                add_bad(st, (dict(defect="cached_encoding_differs_from_fresh", part=part),
+                             dict(net=r.get("net_name"), seed=r["job"]["seed"], args=r["job"]["args"], model=r["job"].get("tflite") or r["job"].get("family"),
+                                  call=rec, call_index=wi,
+                                  replay_cmd="cd /verif && /venv/bin/python tools/vela_worker.py %s/job.json  # then capture.json, weights[%d]" % (
+                                      r["job"]["out_dir"], wi)),
+                             "compiled model %s (%s): encode_weight_and_scale_tensor answered operator %s (%s, weights %s) from the cache with an "
+                             "encoding whose %s differ from a fresh encoding (returned weight sections %s bytes, fresh %s)" % (
+                                 r.get("net_name"), " ".join(r["job"]["args"][:2]), rec.get("op"), rec.get("op_type"), rec.get("weights_shape"), part,
+                                 rec.get("returned_weight_bytes"), rec.get("fresh_weight_bytes") or rec.get("fresh_error"))))
         for k, stream in enumerate(art["capture"]["streams"]):
             match = [j for j, n2 in enumerate(art["npu"]) if n2["words"] == stream["words"]]
             flash = bytes(art["npu"][match[0]]["flash"]) if match and art["npu"][match[0]]["flash"] is not None else None
